@@ -441,8 +441,6 @@ func seq(n int) []int {
 	return out
 }
 
-const knownBirkhoffExpSingle = "C20-birkhoff-inexponent-single-node"
-
 func (e *env[S, G]) Birkhoff(t *rapid.T) {
 	const test = "Birkhoff"
 	lay := genBirkhoff(t, e.p)
@@ -536,12 +534,6 @@ func (e *env[S, G]) Birkhoff(t *rapid.T) {
 		}
 		regClass += fmt.Sprintf("/err=%v", err != nil)
 	case "exponent":
-		if k == 1 && regular {
-			// catalogued: a single node makes InterpolateInExponent fail in Minor (1×1)
-			vlib.Excluded(knownBirkhoffExpSingle)
-			vlib.Case(test, vlib.Desc(e.name, mode, "excluded"), false, "field="+e.name, "mode="+mode, "excluded")
-			return
-		}
 		pts := make([]G, k)
 		for i, y := range ys {
 			pts[i] = e.lift(y)
@@ -596,21 +588,22 @@ func TestBirkhoff(t *testing.T) {
 	vlib.Check(t, 3000, func(t *rapid.T) { drawSuite(t).Birkhoff(t) })
 }
 
-// KnownBirkhoffSingleNodeInExponent observes the catalogued finding: with one node (x, order 0)
-// birkhoff.Interpolate returns the constant polynomial but InterpolateInExponent fails.
-func (e *env[S, G]) KnownBirkhoffSingleNodeInExponent() (bool, string) {
+// BirkhoffSingleNodeInExponent is the regression for a repaired defect (repository commit
+// f0fd78f): with one node (x, order 0) InterpolateInExponent used to fail in Minor (1×1)
+// although Interpolate returned the constant polynomial.
+func (e *env[S, G]) BirkhoffSingleNodeInExponent(t *testing.T) {
 	x, y := e.field.FromUint64(5), big.NewInt(7)
-	if _, err := birkhoff.Interpolate([]S{x}, []uint64{0}, []S{e.fe(y)}); err != nil {
-		return false, "scalar variant fails too: " + err.Error()
+	sp, err := birkhoff.Interpolate([]S{x}, []uint64{0}, []S{e.fe(y)})
+	if err != nil || e.bi(sp.Eval(e.field.FromUint64(11))).Cmp(y) != 0 {
+		t.Fatalf("%s: birkhoff.Interpolate([5],[0],[7]): %v %v", e.name, sp, err)
 	}
 	poly, err := birkhoff.InterpolateInExponent([]S{x}, []uint64{0}, []G{e.lift(y)})
 	if err != nil {
-		return true, fmt.Sprintf("%s: birkhoff.InterpolateInExponent([5],[0],[7·G]) fails (%v) while birkhoff.Interpolate([5],[0],[7]) returns the constant polynomial 7", e.name, firstLine(err.Error()))
+		t.Fatalf("%s: birkhoff.InterpolateInExponent([5],[0],[7·G]) fails (%v) while birkhoff.Interpolate([5],[0],[7]) returns the constant polynomial 7", e.name, firstLine(err.Error()))
 	}
-	if !poly.Eval(x).Equal(e.lift(y)) {
-		return true, e.name + ": birkhoff.InterpolateInExponent with a single node returns a wrong polynomial"
+	if !poly.Eval(x).Equal(e.lift(y)) || !poly.Eval(e.field.FromUint64(11)).Equal(e.lift(y)) || !poly.Coefficients()[0].Equal(e.lift(y)) {
+		t.Fatalf("%s: birkhoff.InterpolateInExponent([5],[0],[7·G]) is not the constant polynomial 7·G", e.name)
 	}
-	return false, ""
 }
 
 func firstLine(s string) string {
@@ -622,20 +615,12 @@ func firstLine(s string) string {
 	return s
 }
 
-func TestKnownBirkhoffSingleNodeInExponent(t *testing.T) {
-	if !vlib.Mine(0) {
-		t.Skip("observed by shard 0")
-	}
-	present, what := false, ""
-	for _, s := range suites {
-		if p, w := s.KnownBirkhoffSingleNodeInExponent(); p {
-			present = true
-			if what == "" {
-				what = w
-			}
+func TestBirkhoffSingleNodeInExponent(t *testing.T) {
+	for i, s := range suites {
+		if vlib.Mine(i) {
+			s.BirkhoffSingleNodeInExponent(t)
 		}
 	}
-	vlib.Known(knownBirkhoffExpSingle, present, what)
 }
 
 // vandermondeEmpty returns a non-nil error iff every degenerate Vandermonde call is refused.
